@@ -1,15 +1,20 @@
 """C07 — two-key guard: an action passes only with the approvals its gate logic requires.
 
-Drives the real CoherentFeedForwardLoop.run (circuit breaker disabled: that is
-C08) with stub executor/assessor objects and a virtual clock, checks the
-property itself on every reply (monitor), and compares every observation with
-the Coq model (coq/C07/Model.v, run_case).  translate() rebuilds the gate
-decision table by calling the real _apply_gate_logic on every combination and
-writes it to coq/gen/Gen_C07.v, where Gen_C07_ok / Gen_C07_complete must
-re-prove that the model's gate is that table.
+Drives the real CoherentFeedForwardLoop (circuit breaker disabled, or enabled
+with a threshold no history reaches: the breaker itself is C08) with stub
+executor/assessor objects and a virtual clock.  A case is a history of
+operations (run(prompt), clear_cache(), the read-only calls) against one or two
+loop objects; the property itself is checked on every reply (monitor), and
+every observation is compared with the Coq model (coq/C07/Model.v, run_case).
+translate() rebuilds the gate decision table by calling the real
+_apply_gate_logic on every combination and writes it to coq/gen/Gen_C07.v, where
+Gen_C07_ok / Gen_C07_complete must re-prove that the model's gate is that table.
 """
+import contextlib
 import hashlib
+import io
 import itertools
+import unicodedata
 from datetime import datetime as _real_datetime, timedelta as _timedelta
 
 from . import common
@@ -17,17 +22,106 @@ from .common import Check, Violation, cz, cbool, clist, cstr, ctuple, cnat
 
 LOGIC_NAMES = ["AND", "OR", "MAJORITY", "UNANIMOUS", "EXECUTOR_PRIORITY", "ASSESSOR_PRIORITY"]
 LOGIC_COQ = ["LAnd", "LOr", "LMajority", "LUnanimous", "LExecPrio", "LAssessPrio"]
-# verdict codes: 0..5 the six action types, 6 any other string, 7 the agent raised
+# verdict codes: 0..5 the six action types, 6 any other string, 7 the agent raised,
+# 8 (monitor only) the agent was not asked at this request
 VERDICT_STR = ["EXECUTE", "PERMIT", "BLOCK", "FAILURE", "DEFER", "UNKNOWN"]
-VERDICT_COQ = ["VExecute", "VPermit", "VBlock", "VFailure", "VDefer", "VUnknown", "VOther", "VRaised"]
+VERDICT_COQ = ["VExecute", "VPermit", "VBlock", "VFailure", "VDefer", "VUnknown", "VOther", "VRaised", "(not asked)"]
+NOT_ASKED = 8
 OTHER_STRS = ["permit", "", "SUCCESS", "Execute", "PERMIT ", "block", "APPROVE", "execute", " BLOCK"]
 ACTION_CODE = {"SUCCESS": 0, "BLOCKED": 1, "FAILURE": 2, "SKIPPED": 3, "ERROR": 4, "CIRCUIT_OPEN": 5}
 NAMES = ["Gene_Y (Risk)", "assessor-2", "Z", ""]
-PROMPTS = ["", "a", "b", "a ", "deploy", "Deploy to production", "rm -rf /", "calculate 2+2",
-           "ünï©ode ✓", "\U0001f9ec gene", "A", "0" * 40, "line1\nline2", "PERMIT"]
-UNKNOWN_CODES = (4, 5, 6)
+UNKNOWN_CODES = (4, 5, 6, NOT_ASKED)
 CAP = 1000      # the literal in _cache_result
 BASE = _real_datetime(2026, 1, 1, 0, 0, 0)
+DAY = 86400 * 1000          # all times and TTLs of a case are in milliseconds
+
+
+# ---------------------------------------------------------------------------
+# the prompt alphabet: base texts and systematic re-spellings of them.  A request
+# is "exactly this request": any way in which an implementation could take two
+# spellings for the same request (or one spelling for another text) must be
+# visible, so for every canonicalisation below the alphabet contains texts that
+# it changes, next to the text it changes them into.
+# ---------------------------------------------------------------------------
+
+def _fullwidth(s):
+    return "".join(chr(ord(c) + 0xFEE0) if 0x21 <= ord(c) <= 0x7E else c for c in s)
+
+
+def _ligature(s):
+    for a, b in (("ffi", "\ufb03"), ("ffl", "\ufb04"), ("fi", "\ufb01"), ("fl", "\ufb02"), ("ff", "\ufb00"), ("st", "\ufb06")):
+        s = s.replace(a, b)
+    return s
+
+
+def _homoglyph(s):
+    return s.translate(str.maketrans({"a": "\u0430", "e": "\u0435", "o": "\u043e", "p": "\u0440", "c": "\u0441", "A": "\u0391"}))
+
+
+def _zero_width(s):
+    return s[:1] + "\u200b" + s[1:]
+
+
+SPELLINGS = [
+    ("same", lambda s: s),
+    ("trail-space", lambda s: s + " "), ("lead-space", lambda s: " " + s), ("double-space", lambda s: s.replace(" ", "  ")),
+    ("tab", lambda s: s.replace(" ", "\t")), ("trail-newline", lambda s: s + "\n"), ("crlf", lambda s: s + "\r\n"),
+    ("nbsp", lambda s: s.replace(" ", "\u00a0")),
+    ("upper", str.upper), ("lower", str.lower), ("title", str.title), ("swapcase", str.swapcase), ("casefold", str.casefold),
+    ("nfc", lambda s: unicodedata.normalize("NFC", s)), ("nfd", lambda s: unicodedata.normalize("NFD", s)),
+    ("nfkc", lambda s: unicodedata.normalize("NFKC", s)), ("nfkd", lambda s: unicodedata.normalize("NFKD", s)),
+    ("fullwidth", _fullwidth), ("ligature", _ligature), ("homoglyph", _homoglyph), ("zero-width", _zero_width),
+    ("bom", lambda s: "\ufeff" + s), ("nul", lambda s: s + "\x00"), ("soft-hyphen", lambda s: s[:2] + "\u00ad" + s[2:]),
+    ("ascii-only", lambda s: s.encode("ascii", "ignore").decode()),
+    ("head-16", lambda s: s[:16]), ("head-64", lambda s: s[:64]), ("twice", lambda s: s + s),
+    ("longer-tail", lambda s: s + "." * 70 + "x"), ("longer-tail-2", lambda s: s + "." * 70 + "y"),
+]
+BASES = ["", "a", "b", "deploy", "Deploy to production", "rm -rf /", "calculate 2+2", "PERMIT", "0" * 40, "line1\nline2",
+         "\u00fcn\u00ef\u00a9ode \u2713", "\U0001f9ec gene", "A",
+         "caf\u00e9 au lait", "office staff file", "na\u00efve r\u00e9sum\u00e9 \u2014 final",
+         "\u212bngstr\u00f6m 10\u00b2 \u2460 \u00bd", "stra\u00dfe \u0130stanbul \u017fap \u01c6",
+         "\ud55c\uae00 \u30ac\u30ae \uff76\uff9e", "\u0627\u0644\u0639\u0631\u0628\u064a\u0629 abc", "e\u0301\u0323 vs \u1eb9\u0301",
+         "transfer 100 EUR to account 12", "x" * 300]
+
+
+def respellings(base):
+    out, seen = [], set()
+    for name, f in SPELLINGS:
+        v = f(base)
+        if v not in seen:
+            seen.add(v)
+            out.append(v)
+    return out
+
+
+def _build_prompts():
+    out, seen = [], set()
+    for i, b in enumerate(BASES):
+        vs = respellings(b)
+        # every base, and for every base a rotating handful of its re-spellings
+        for v in [b] + [vs[(i * 5 + k * 7) % len(vs)] for k in range(4)]:
+            if v not in seen:
+                seen.add(v)
+                out.append(v)
+    return out
+
+
+PROMPTS = _build_prompts()
+
+
+def prompt_tags(p):
+    ks = []
+    if not p.isascii():
+        ks.append("prompt=non-ascii")
+        if unicodedata.normalize("NFKC", p) != p:
+            ks.append("prompt=not-nfkc")
+        if unicodedata.normalize("NFC", p) != p:
+            ks.append("prompt=not-nfc")
+    if p != p.strip() or "  " in p:
+        ks.append("prompt=odd-whitespace")
+    if len(p) > 64:
+        ks.append("prompt=long")
+    return ks
 
 
 class AgentCrash(Exception):
@@ -38,13 +132,13 @@ EXCS = [ValueError, RuntimeError, KeyError, AgentCrash, TimeoutError, ZeroDivisi
 
 
 class VClock:
-    """Stands in for the name `datetime` inside operon_ai.topology.loops."""
+    """Stands in for the name `datetime` inside operon_ai.topology.loops (time in milliseconds)."""
 
     def __init__(self):
         self.t = 0
 
     def now(self):
-        return BASE + _timedelta(seconds=self.t)
+        return BASE + _timedelta(milliseconds=self.t)
 
 
 class Stub:
@@ -108,35 +202,54 @@ class C07(Check):
     RUN = "run_case"
     N_QUICK = 900
     N_THOROUGH = 20000
-    RULE = ("exhaustive: all 6 gate logics x 8 x 8 agent verdicts (EXECUTE, PERMIT, BLOCK, FAILURE, DEFER, UNKNOWN, "
-            "other string, exception), each followed by a repeat of the same prompt with different scripted verdicts "
-            "(cache on) = 384 two-request histories, 24 of them re-run with the cache off, plus one 1012-request "
-            "history that overflows the 1000-entry cache; random: histories of 1..14 requests over 2..5 prompts drawn "
-            "from a 14-string alphabet (empty, trailing space, non-ASCII, non-BMP, newline), clock steps in "
-            "{0,1,2,5,300,-1}, ttl in {0,1,2,5,300}, cache on/off, 4 assessor names, 9 spellings of 'other' verdicts, "
-            "6 exception classes. distinct by case content; non-trivial = every exhaustive table cell, and a random "
-            "history only if it contains a cache hit, an expiry, an exception or a not-blocked reply")
-    LEVEL_TEXT = ("Coq theorems about a hand-written model of CoherentFeedForwardLoop.run/_apply_gate_logic (breaker off): "
-                  "for all 6 logics and all verdict pairs the result is not-blocked iff an independently transcribed "
-                  "spec_pass holds; exceptions and unknown verdicts block; a token is attached iff not-blocked and the "
-                  "assessor said PERMIT and then carries H(prompt) and the assessor's name; for every request history "
-                  "(any length, any clock) a cached reply equals the uncached reply to the same prompt it was stored "
-                  "from, within TTL, without invoking the agents (K injective on the history's prompts). The gate table "
-                  "is regenerated from the real _apply_gate_logic on every run and re-proved equal to the model's.")
-    LEVEL_NOTE = ("Trusts: Coq kernel+VM; harness and enumeration translator; sha256/md5 truncations abstract (H, K), md5[:16] "
+    RULE = ("a case is a history of operations - run(prompt) at a clock value with scripted agent behaviour, clear_cache(), "
+            "the read-only calls - against one or two loop objects (own configuration, agents, cache). exhaustive: all 6 gate "
+            "logics x 8 x 8 agent verdicts (EXECUTE, PERMIT, BLOCK, FAILURE, DEFER, UNKNOWN, other string, exception), each "
+            "followed by a repeat of the same prompt with different scripted verdicts (cache on) = 384 histories, 24 re-run "
+            "with the cache off; 6 logics x 3 kinds of earlier reply (passed with token, passed without, blocked) x 9 states "
+            "of the prompt's cache entry (never stored, valid, exactly at the TTL, expired by 1 ms / a minute / more than a "
+            "day, cleared, after read-only calls, stored by the OTHER loop object) x the verdicts at the repeat (6 pairs incl. "
+            "each agent raising in the quick tier, all 64 in the thorough tier) + one more repeat; per base text one history "
+            "in which the text is approved and every re-spelling of it is then sent within the TTL; one 1012-request history "
+            "that overflows the 1000-entry cache. random: 1..14 operations (5% clear_cache, 7% read-only calls) on 1 or 2 "
+            "loops over the re-spellings of one base text plus 0..2 unrelated texts; prompt alphabet = 23 base texts x 30 "
+            "re-spellings (whitespace, case, NFC/NFD/NFKC/NFKD, full-width, ligatures, homoglyphs, zero-width/BOM/NUL, "
+            "truncations and extensions beyond 16/64 chars; non-BMP, RTL, Hangul, combining sequences); clock steps in "
+            "{0,1,40,50,60,999,1000,1001,2000,5000,60000,300000,1 day+3,-1000} ms, ttl in {0,1,50,1000,1500,2000,5000,"
+            "300000,-1000} ms, cache on/off, breaker off / on with an unreachable threshold, silent on/off, 4 assessor names, "
+            "9 spellings of 'other' verdicts, 6 exception classes, per-history crash rates up to 40%. distinct by case "
+            "content; non-trivial = every enumerated cell, and a random history only if it contains a cache hit, an expiry, "
+            "an exception or a not-blocked reply")
+    LEVEL_TEXT = ("Coq theorems about a hand-written model of CoherentFeedForwardLoop.run/_apply_gate_logic/clear_cache (breaker "
+                  "never open): for all 6 logics and all verdict pairs the result is not-blocked iff an independently "
+                  "transcribed spec_pass holds; exceptions and unknown verdicts block; a token is attached iff not-blocked and "
+                  "the assessor said PERMIT and then carries H(prompt) and the assessor's name; for every history of operations "
+                  "(any length, any clock, requests / clear_cache / read-only calls): the agents are consulted exactly for the "
+                  "replies not served from the cache, a request at which a consulted agent raised is the blocked ERROR result "
+                  "whatever the cache holds, a cached reply equals the uncached reply to the same prompt it was stored from, "
+                  "within TTL, without invoking the agents (K injective on the history's prompts), tokens with equal hashes "
+                  "answer equal prompts (H injective), clear_cache makes the loop a new one, read-only calls change nothing, "
+                  "and two loop objects driven interleaved do not influence each other. The gate table is regenerated from "
+                  "the real _apply_gate_logic on every run and re-proved equal to the model's.")
+    LEVEL_NOTE = ("Trusts: Coq kernel+VM; harness and enumeration translator; sha256/md5 truncations abstract (H, K), both "
                   "injective on each history's prompts (checked per case); configuration not mutated between requests; "
-                  "circuit breaker disabled (C08). Axioms: none (Print Assumptions: closed).")
-    TECHNIQUE = ("Coq: exhaustive case analysis for the finite gate table + induction over the request history with a cache "
-                 "provenance invariant; table regenerated by enumeration of the real function; vm_compute correspondence "
-                 "against CoherentFeedForwardLoop.run")
+                  "circuit breaker disabled or never open (C08). Axioms: none (Print Assumptions: closed).")
+    TECHNIQUE = ("Coq: exhaustive case analysis for the finite gate table + induction over the operation history with a cache "
+                 "provenance invariant + projection lemma for two objects; table regenerated by enumeration of the real "
+                 "function; vm_compute correspondence against CoherentFeedForwardLoop.run")
     TRUSTED = ["modelled not verified: sha256(prompt)[:16] and md5(prompt)[:16] are abstract functions H and K; the harness "
                "checks on every case that both are injective on the prompts of the case and observes only whether "
                "token.request_hash equals sha256(prompt)[:16] of the request being answered",
                "agents are oracles: what express() returns/raises if invoked at a request is part of the request; "
-               "the stubs return ActionProtein objects with str action_type and printable payloads",
-               "enable_circuit_breaker=False (the breaker is C08); on_block/on_permit callbacks not supplied; one thread",
-               "virtual clock: loops.datetime rebound to an object whose now() is constant during one request"]
-    ASSUMPTIONS = ["cache theorem: md5(prompt)[:16] (K) is injective on the prompts of the history",
+               "the stubs return ActionProtein objects with str action_type and printable payloads, and record the "
+               "Signal.content they were handed",
+               "whether a reply is a cached one is decided by the monitor from whether the stubs were invoked at that "
+               "request, not from LoopResult.cached (which is compared with the model only)",
+               "enable_circuit_breaker is False, or True with failure_threshold=10**9 (the breaker never opens in a history; "
+               "its own behaviour is C08); on_block/on_permit callbacks not supplied; one thread; stdout captured when silent=False",
+               "virtual clock: loops.datetime rebound to an object whose now() is constant during one request; times and "
+               "TTLs are whole milliseconds (cache_ttl_seconds = ms/1000.0, exact in timedelta's microseconds)"]
+    ASSUMPTIONS = ["cache theorem: md5(prompt)[:16] (K) is injective on the prompts of the history; token theorems: so is sha256(prompt)[:16] (H)",
                    "gate_logic, assessor.name, cache_ttl and enable_cache are not mutated between requests of one history",
                    "prompts are UTF-8 encodable str (run() raises UnicodeEncodeError on a lone surrogate: no reply at all)",
                    "an 'agent exception' is an Exception subclass (BaseException such as KeyboardInterrupt propagates)",
@@ -182,26 +295,95 @@ class C07(Check):
         return rows
 
     # -- generation ------------------------------------------------------------
-    def _case(self, logic, reqs, cache=True, ttl=300, name=0):
-        return {"logic": logic, "name": name, "cache": cache, "ttl": ttl, "reqs": reqs}
+    # case = {"loops": [cfg, ...(1 or 2)], "ops": [[loop, "r", prompt, t_ms, z, zvar, y, yvar] | [loop, "c"] | [loop, "o"]]}
+    # cfg  = {"logic", "name", "cache", "ttl" (ms), "breaker", "silent"}
+    def _cfg(self, logic, cache=True, ttl=300000, name=0, breaker=False, silent=True):
+        return {"logic": logic, "name": name, "cache": cache, "ttl": ttl, "breaker": breaker, "silent": silent}
+
+    def _case(self, logic, reqs, cache=True, ttl=300000, name=0, **kw):
+        """One loop, requests only: reqs = [[prompt, t_ms, z, zvar, y, yvar], ...]."""
+        return {"loops": [self._cfg(logic, cache, ttl, name, **kw)], "ops": [[0, "r"] + list(r) for r in reqs]}
+
+    STEPS = [0, 0, 1, 1, 40, 50, 60, 999, 1000, 1001, 2000, 5000, 60000, 300000, DAY + 3, -1000]
+    TTLS = [0, 1, 50, 50, 1000, 2000, 2000, 5000, 300000, 300000, -1000, 1500]
 
     def gen_cases(self, rng, n):
         out = []
         for _ in range(n):
-            npr = rng.choice([2, 2, 3, 3, 4, 5])
-            ps = rng.sample(PROMPTS, npr)
+            # the prompts of a history: re-spellings of one base text, plus a few unrelated texts
+            base = rng.choice(BASES)
+            vs = respellings(base)
+            ps = [base] + rng.sample(vs, min(len(vs), rng.choice([1, 1, 2, 3])))
+            ps += rng.sample(PROMPTS, rng.choice([0, 1, 1, 2]))
+            ps = list(dict.fromkeys(ps))
+            nloops = rng.choice([1, 1, 1, 2])
+            loops = []
+            for _k in range(nloops):
+                loops.append(self._cfg(rng.randrange(6), cache=rng.random() < 0.85, ttl=rng.choice(self.TTLS),
+                                       name=rng.randrange(len(NAMES)), breaker=rng.random() < 0.25,
+                                       silent=rng.random() < 0.8))
+            if nloops == 2 and rng.random() < 0.5:      # two objects that differ in nothing / only in the logic
+                loops[1] = dict(loops[0], logic=rng.choice([loops[0]["logic"], rng.randrange(6)]))
             k = rng.choice([1, 2, 3, 4, 5, 6, 8, 10, 14])
-            t = rng.choice([0, 0, 7, 1000])
-            # a history leans towards one pair of verdicts so that passes and tokens are frequent
+            t = rng.choice([0, 0, 7000, 10 ** 6])
+            # a history leans towards one pair of verdicts so that passes and tokens are frequent,
+            # and has its own rate of agent crashes
             bias_z, bias_y = rng.choice([0, 0, 1, 2, 3, 5]), rng.choice([1, 1, 1, 2, 0, 4])
-            reqs = []
+            crash = rng.choice([0.0, 0.05, 0.15, 0.4])
+            ops = []
             for _i in range(k):
-                t += rng.choice([0, 0, 1, 1, 1, 2, 5, 300, -1])
+                lp = rng.randrange(nloops)
+                u = rng.random()
+                if u < 0.05:
+                    ops.append([lp, "c"])
+                    continue
+                if u < 0.12:
+                    ops.append([lp, "o"])
+                    continue
+                t += rng.choice(self.STEPS)
                 z = bias_z if rng.random() < 0.4 else rng.choice([0, 0, 1, 2, 3, 4, 5, 6, 7])
                 y = bias_y if rng.random() < 0.4 else rng.choice([0, 1, 1, 1, 2, 2, 3, 4, 5, 6, 7])
-                reqs.append([rng.choice(ps), t, z, rng.randrange(9), y, rng.randrange(9)])
-            out.append(self._case(rng.randrange(6), reqs, cache=rng.random() < 0.85,
-                                  ttl=rng.choice([0, 1, 2, 2, 5, 300, 300]), name=rng.randrange(len(NAMES))))
+                if rng.random() < crash:
+                    if rng.random() < 0.5:
+                        z = 7
+                    else:
+                        y = 7
+                ops.append([lp, "r", rng.choice(ps), t, z, rng.randrange(9), y, rng.randrange(9)])
+            out.append({"loops": loops, "ops": ops})
+        return out
+
+    # what the loop may hold for a prompt when a request for it arrives
+    CACHE_STATES = ["never", "valid", "boundary", "expired", "expired-minute", "expired-day", "cleared", "observed", "other-loop"]
+    SECOND_QUICK = [(7, 1), (0, 7), (7, 7), (2, 2), (0, 1), (5, 5)]
+
+    def _cache_state_cases(self):
+        """Every gate logic x an earlier reply (passed with token / passed without / blocked) x the state of
+        the cache entry for the prompt x the verdicts at the repeat (incl. each agent crashing), followed
+        by one more repeat that shows what the second request left behind."""
+        seconds = self.SECOND_QUICK if self.tier == "quick" else list(itertools.product(range(8), range(8)))
+        out = []
+        i = 0
+        for l in range(6):
+            for first in [(0, 1), (0, 0), (2, 2)]:
+                for state in self.CACHE_STATES:
+                    for (z2, y2) in seconds:
+                        ttl = (50, 2000, 300000)[i % 3]
+                        p = PROMPTS[i % len(PROMPTS)]
+                        gap = {"valid": ttl - 1, "boundary": ttl, "expired": ttl + 1, "expired-minute": ttl + 60000,
+                               "expired-day": ttl + DAY + 7}.get(state, 1)
+                        second = 1 if state == "other-loop" else 0
+                        ops = []
+                        if state != "never":
+                            ops.append([0, "r", p, 0, first[0], i, first[1], i // 3])
+                        if state == "cleared":
+                            ops.append([0, "c"])
+                        if state == "observed":
+                            ops.append([0, "o"])
+                        ops.append([second, "r", p, gap, z2, i, y2, i // 3])
+                        ops.append([second, "r", p, gap + 1] + ([0, 0, 1, 0] if i % 2 else [2, 0, 2, 0]))
+                        cfg = self._cfg(l, ttl=ttl, name=i % len(NAMES), breaker=(i % 5 == 0), silent=(i % 7 != 0))
+                        out.append({"loops": [cfg, dict(cfg)] if second else [cfg], "ops": ops})
+                        i += 1
         return out
 
     def exhaustive_cases(self):
@@ -212,18 +394,26 @@ class C07(Check):
                 for y in range(8):
                     z2, y2 = (0, 1) if (z, y) != (0, 1) else (2, 2)
                     p = PROMPTS[i % len(PROMPTS)]
-                    out.append(self._case(l, [[p, 0, z, i, y, i // 3], [p, 1, z2, 0, y2, 0]], name=i % len(NAMES)))
+                    out.append(self._case(l, [[p, 0, z, i, y, i // 3], [p, 1000, z2, 0, y2, 0]], name=i % len(NAMES)))
                     i += 1
         for l in range(6):                      # same table cell twice with the cache off
             for (z, y) in [(0, 1), (1, 1), (0, 2), (7, 1)]:
-                out.append(self._case(l, [["a", 0, z, 0, y, 0], ["a", 1, z, 0, y, 0]], cache=False))
+                out.append(self._case(l, [["a", 0, z, 0, y, 0], ["a", 1000, z, 0, y, 0]], cache=False))
+        out += self._cache_state_cases()
+        # every re-spelling of a text is a request of its own: the text is approved and cached first,
+        # then each re-spelling is sent within the TTL while the agents would now block
+        for b in BASES:
+            vs = [v for v in respellings(b) if v != b]
+            reqs = [[b, 0, 0, 0, 1, 0]] + [[v, 1 + j, 2, 0, 2, 0] for j, v in enumerate(vs)] + \
+                   [[v, 100 + j, 0, 0, 1, 0] for j, v in enumerate(vs)]
+            out.append(self._case((0, 1, 3, 4, 5)[len(out) % 5], reqs, ttl=50))
         # overflow the 1000-entry cache: 1003 distinct prompts (timestamps tie in groups of four),
         # then revisit evicted and surviving prompts with different scripted verdicts
-        reqs = [[f"p{j}", j // 4, (0, 2, 3)[j % 3], 0, 1 if j % 5 else 2, 0] for j in range(CAP + 3)]
-        t = (CAP + 3) // 4
+        reqs = [[f"p{j}", (j // 4) * 1000, (0, 2, 3)[j % 3], 0, 1 if j % 5 else 2, 0] for j in range(CAP + 3)]
+        t = ((CAP + 3) // 4) * 1000
         for j in (0, 1, 2, 3, 4, 5, CAP, CAP + 2, 0):
             reqs.append([f"p{j}", t, 2, 0, 2, 0])
-        out.append(self._case(0, reqs, ttl=10 ** 6))
+        out.append(self._case(0, reqs, ttl=10 ** 9))
         return out
 
     def extra_checks(self):
@@ -235,8 +425,16 @@ class C07(Check):
                 ("blocked" if r["blocked"] else "NOT BLOCKED")
         except Exception as e:  # pragma: no cover
             self.extra_cov["lone_surrogate_prompt"] = f"harness error {type(e).__name__}"
+        self.extra_cov["prompt_alphabet"] = {"texts": len(PROMPTS), "bases": len(BASES), "spellings": len(SPELLINGS),
+                                             "not_nfkc": sum(1 for p in PROMPTS if unicodedata.normalize("NFKC", p) != p)}
 
     # -- implementation ----------------------------------------------------------
+    def _cache_size(self, loop):
+        c = getattr(loop, "_cache", None)
+        if isinstance(c, dict):
+            return len(c)           # read directly: the read-only calls are operations of the history
+        return int(loop.get_statistics()["cache_size"])
+
     def run_impl(self, case):
         from operon_ai.topology import loops as L
         from operon_ai.core.types import ActionProtein
@@ -244,60 +442,93 @@ class C07(Check):
         clock = VClock()
         saved = L.datetime
         L.datetime = clock
+        sink = io.StringIO()
         try:
-            loop = L.CoherentFeedForwardLoop(
-                budget=ATP_Store(budget=100, silent=True),
-                gate_logic=getattr(L.GateLogic, LOGIC_NAMES[case["logic"]]),
-                enable_circuit_breaker=False, enable_cache=case["cache"],
-                cache_ttl_seconds=case["ttl"], silent=True)
-            ex = Stub("Gene_Z (Exec)" if case["name"] != 2 else "Z", ActionProtein)
-            asr = Stub(NAMES[case["name"]], ActionProtein)
-            loop.executor, loop.assessor = ex, asr
-            obs, recs = [], []
-            for (p, t, z, zv, y, yv) in case["reqs"]:
-                clock.t = t
-                ex.next, asr.next = (z, zv), (y, yv)
-                e0, a0 = ex.calls, asr.calls
-                rec = {"prompt": p, "t": t, "z": z, "y": y}
-                try:
-                    res = loop.run(p)
-                except Exception as e:
-                    rec["raised"] = type(e).__name__
+            with contextlib.redirect_stdout(sink):
+                objs = []
+                for cfg in case["loops"]:
+                    loop = L.CoherentFeedForwardLoop(
+                        budget=ATP_Store(budget=100, silent=True),
+                        gate_logic=getattr(L.GateLogic, LOGIC_NAMES[cfg["logic"]]),
+                        enable_circuit_breaker=bool(cfg.get("breaker")), failure_threshold=10 ** 9,
+                        enable_cache=cfg["cache"], cache_ttl_seconds=cfg["ttl"] / 1000.0,
+                        timeout_seconds=(30.0, 0.001)[cfg["name"] % 2], silent=bool(cfg.get("silent", True)))
+                    ex = Stub("Gene_Z (Exec)" if cfg["name"] != 2 else "Z", ActionProtein)
+                    asr = Stub(NAMES[cfg["name"]], ActionProtein)
+                    loop.executor, loop.assessor = ex, asr
+                    objs.append((loop, ex, asr))
+                obs, recs = [], []
+                for op in case["ops"]:
+                    lp, kind = op[0], op[1]
+                    loop, ex, asr = objs[lp]
+                    if kind == "c":
+                        loop.clear_cache()
+                        recs.append({"op": "c", "loop": lp})
+                        obs.append([self._cache_size(loop)])
+                        continue
+                    if kind == "o":
+                        loop.get_statistics()
+                        loop.get_results_log()
+                        loop.get_results_log(5)
+                        loop.get_circuit_breaker_stats()
+                        recs.append({"op": "o", "loop": lp})
+                        obs.append([self._cache_size(loop)])
+                        continue
+                    (p, t, z, zv, y, yv) = op[2:]
+                    clock.t = t
+                    ex.next, asr.next = (z, zv), (y, yv)
+                    e0, a0, s0, s1 = ex.calls, asr.calls, len(ex.seen), len(asr.seen)
+                    rec = {"op": "r", "loop": lp, "prompt": p, "t": t, "z": z, "y": y}
+                    try:
+                        res = loop.run(p)
+                    except Exception as e:
+                        rec["raised"] = type(e).__name__
+                        recs.append(rec)
+                        obs.append([-997])
+                        continue
+                    tok = res.approval_token
+                    shown = ex.seen[s0:] + asr.seen[s1:]
+                    rec.update(blocked=bool(res.blocked), success=bool(res.success), action=res.action,
+                               token=None if tok is None else (tok.request_hash, tok.issuer),
+                               cached=bool(res.cached), exec_called=ex.calls - e0, assess_called=asr.calls - a0,
+                               assessor_name=asr.name)
                     recs.append(rec)
-                    obs.append([-997])
-                    continue
-                tok = res.approval_token
-                rec.update(blocked=bool(res.blocked), success=bool(res.success), action=res.action,
-                           token=None if tok is None else (tok.request_hash, tok.issuer),
-                           cached=bool(res.cached), exec_called=ex.calls - e0, assess_called=asr.calls - a0,
-                           assessor_name=asr.name)
-                recs.append(rec)
-                try:
-                    want = sha16(p)
-                except UnicodeEncodeError:
-                    want = None
-                obs.append([int(rec["blocked"]), int(rec["success"]), ACTION_CODE.get(res.action, 99),
-                            int(tok is not None),
-                            int(tok is not None and tok.request_hash == want),
-                            int(tok is not None and tok.issuer == asr.name),
-                            int(rec["cached"]), ex.calls - e0, asr.calls - a0,
-                            int(loop.get_statistics()["cache_size"])])
-            return obs, {"recs": recs, "logic": LOGIC_NAMES[case["logic"]]}
+                    try:
+                        want = sha16(p)
+                    except UnicodeEncodeError:
+                        want = None
+                    obs.append([int(rec["blocked"]), int(rec["success"]), ACTION_CODE.get(res.action, 99),
+                                int(tok is not None),
+                                int(tok is not None and tok.request_hash == want),
+                                int(tok is not None and tok.issuer == asr.name),
+                                int(rec["cached"]), ex.calls - e0, asr.calls - a0,
+                                -1 if not shown else int(all(c == p for c in shown)),
+                                self._cache_size(loop)])
+            return obs, {"recs": recs, "logics": [LOGIC_NAMES[c["logic"]] for c in case["loops"]]}
         finally:
             L.datetime = saved
 
     # -- model input -------------------------------------------------------------
+    def _coq_cfg(self, cfg):
+        return ctuple(LOGIC_COQ[cfg["logic"]], cstr(NAMES[cfg["name"]]), cbool(cfg["cache"]), cz(cfg["ttl"]))
+
     def coq_case(self, case):
-        reqs = clist([ctuple(cstr(p), cz(t), VERDICT_COQ[z], VERDICT_COQ[y]) for (p, t, z, _zv, y, _yv) in case["reqs"]])
-        return ctuple(LOGIC_COQ[case["logic"]], cstr(NAMES[case["name"]]), cbool(case["cache"]),
-                      cz(case["ttl"]), cnat(CAP), reqs)
+        ops = []
+        for op in case["ops"]:
+            b = cbool(op[0] == 1)
+            if op[1] == "r":
+                (p, t, z, _zv, y, _yv) = op[2:]
+                ops.append(ctuple(b, f"CReq {cstr(p)} {cz(t)} {VERDICT_COQ[z]} {VERDICT_COQ[y]}"))
+            else:
+                ops.append(ctuple(b, "CClear" if op[1] == "c" else "CObserve"))
+        loops = case["loops"]
+        return ctuple(self._coq_cfg(loops[0]), self._coq_cfg(loops[-1]), cnat(CAP), clist(ops))
 
     # -- the property, on the implementation's trace --------------------------------
     def monitor(self, case, obs, trace):
         if trace.get("harness_error") or trace.get("hang"):
             return Violation("C07/harness", f"the loop could not be driven: {trace}")
-        logic = trace["logic"]
-        prompts = {r[0] for r in case["reqs"]}
+        prompts = {op[2] for op in case["ops"] if op[1] == "r"}
         encodable = []
         for p in prompts:
             try:
@@ -306,27 +537,36 @@ class C07(Check):
                 pass
         if len({k for k, _ in encodable}) != len(encodable) or len({h for _, h in encodable}) != len(encodable):
             return None     # truncated-hash collision among this history's prompts: outside the stated assumption
-        original = {}       # prompt -> the latest reply for it that the agents were actually asked for
+        # (loop, prompt) -> the latest reply to this prompt for which this loop's agents were actually asked.
+        # Whether a reply is "cached" is decided by what the stubs saw (was anybody asked at this request?),
+        # never by what the loop says about its own reply.
+        original = {}
+        token_for = {}      # request hash on a token -> the prompt it was given for
         for i, r in enumerate(trace["recs"]):
+            if r["op"] != "r":
+                continue
+            logic = trace["logics"][r["loop"]]
             if "raised" in r:
                 if r["raised"] == "UnicodeEncodeError":
                     continue        # no reply at all for an unencodable prompt (outside the domain; recorded)
                 return Violation("C07/run-raises", f"request {i} ({r['prompt']!r}): run() raised {r['raised']} instead of returning a blocked result")
             verdict = (r["blocked"], r["success"], r["action"], r["token"])
-            if r["cached"] or r["exec_called"] == 0:
-                o = original.get(r["prompt"])
+            if r["exec_called"] == 0 and r["assess_called"] == 0:
+                o = original.get((r["loop"], r["prompt"]))
                 if o is None:
-                    return Violation("C07/cache-no-original", f"request {i} ({r['prompt']!r}) was answered from the cache but no earlier uncached reply to this prompt exists")
+                    return Violation("C07/cache-no-original", f"request {i} ({r['prompt']!r}) was answered without asking the agents but no earlier reply of this loop to this prompt exists for which they were asked")
                 if verdict != (o["blocked"], o["success"], o["action"], o["token"]):
                     return Violation("C07/cache-differs", f"request {i} ({r['prompt']!r}): cached reply {verdict} differs from the original {(o['blocked'], o['success'], o['action'], o['token'])}")
-                src = o
+                z, y = o["vz"], o["vy"]
             else:
-                src = r
-                original[r["prompt"]] = r
-            z, y = src["z"], src["y"]
+                # the verdicts of THIS request are what the agents said when asked at it
+                z = r["z"] if r["exec_called"] else NOT_ASKED
+                y = r["y"] if r["assess_called"] else NOT_ASKED
+                r["vz"], r["vy"] = z, y
+                original[(r["loop"], r["prompt"])] = r
             if not r["blocked"] and not spec_pass(logic, z, y):
                 if z == 7 or y == 7:
-                    return Violation("C07/exception-not-blocked", f"request {i}: an agent raised but the result is not blocked ({logic})")
+                    return Violation("C07/exception-not-blocked", f"request {i} ({r['prompt']!r}): {'the executor' if z == 7 else 'the assessor'} raised but the result is not blocked ({logic}; action {r['action']}, cached flag {r['cached']}, token {'yes' if r['token'] else 'no'})")
                 if z in UNKNOWN_CODES and y in UNKNOWN_CODES:
                     return Violation("C07/unknown-not-blocked", f"request {i}: both verdicts unknown ({VERDICT_COQ[z]}, {VERDICT_COQ[y]}) but not blocked under {logic}")
                 return Violation("C07/pass-without-approvals", f"request {i}: not blocked under {logic} with executor {VERDICT_COQ[z]} / assessor {VERDICT_COQ[y]}")
@@ -335,20 +575,31 @@ class C07(Check):
                 if y != 1:
                     return Violation("C07/token-without-assessor-permit", f"request {i}: approval token attached although the assessor said {VERDICT_COQ[y]}")
                 if h != sha16(r["prompt"]):
-                    return Violation("C07/token-hash-not-bound", f"request {i}: token hash {h} is not sha256({r['prompt']!r})[:16]")
+                    return Violation("C07/token-hash-not-bound", f"request {i}: token hash {h} is not sha256({r['prompt']!r})[:16] = {sha16(r['prompt'])}")
                 if issuer != r["assessor_name"]:
                     return Violation("C07/token-issuer", f"request {i}: token issuer {issuer!r} is not the assessor {r['assessor_name']!r}")
+                if token_for.setdefault(h, r["prompt"]) != r["prompt"]:
+                    return Violation("C07/token-shared-between-requests", f"request {i}: the token for {r['prompt']!r} carries the same request hash {h} as the token given for {token_for[h]!r}")
         return None
 
     def nontrivial(self, case, obs, trace):
-        recs = trace.get("recs", [])
-        if len(case["reqs"]) == 2 and case["reqs"][0][0] == case["reqs"][1][0]:
-            return True
+        recs = [r for r in trace.get("recs", []) if r.get("op") == "r"]
+        if len(case["ops"]) <= 3 and len({op[2] for op in case["ops"] if op[1] == "r"}) == 1:
+            return True         # a cell of one of the enumerated tables
         return any(r.get("cached") or r.get("raised") or r.get("blocked") is False or r["z"] == 7 or r["y"] == 7 for r in recs)
 
     def classify(self, case, obs, trace):
-        ks = [f"logic={trace.get('logic')}", f"cache={'on' if case['cache'] else 'off'}", f"requests<={((len(case['reqs']) + 3) // 4) * 4}"]
+        ks = [f"loops={len(case['loops'])}", f"ops<={((len(case['ops']) + 3) // 4) * 4}"]
+        for lg, cfg in zip(trace.get("logics", []), case["loops"]):
+            ks += [f"logic={lg}", f"cache={'on' if cfg['cache'] else 'off'}", f"ttl_ms={cfg['ttl']}",
+                   f"breaker={'on(never opens)' if cfg.get('breaker') else 'off'}", f"silent={bool(cfg.get('silent', True))}"]
+        passed = set()
+        for p in {op[2] for op in case["ops"] if op[1] == "r"}:
+            ks += prompt_tags(p)
         for r in trace.get("recs", []):
+            if r["op"] != "r":
+                ks.append("op=clear_cache" if r["op"] == "c" else "op=read-only-calls")
+                continue
             if "raised" in r:
                 ks.append("run-raised")
                 continue
@@ -356,13 +607,19 @@ class C07(Check):
             ks.append("reply=not-blocked" if not r["blocked"] else f"reply=blocked/{r['action']}")
             if r["token"] is not None:
                 ks.append("reply=with-token")
+                if not r["prompt"].isascii():
+                    ks.append("reply=with-token/non-ascii-prompt")
             if not r["cached"] and (r["z"] == 7 or r["y"] == 7):
                 ks.append("agent-exception")
+                if (r["loop"], r["prompt"]) in passed:
+                    ks.append("agent-exception/prompt-passed-earlier")
+            if not r["blocked"]:
+                passed.add((r["loop"], r["prompt"]))
         return ks
 
     def shrink(self, case, pred):
-        reqs = common.shrink_list(case["reqs"], lambda rs: len(rs) > 0 and pred({**case, "reqs": rs}))
-        return {**case, "reqs": reqs}
+        ops = common.shrink_list(case["ops"], lambda xs: len(xs) > 0 and pred({**case, "ops": xs}))
+        return {**case, "ops": ops}
 
 
 CHECK = C07
